@@ -203,6 +203,15 @@ MUTANTS = [
      """                    mido.Message("note_on", note=msg.note, velocity=msg.velocity if msg.velocity is not None and msg.velocity > 1 else 127,""",
      "writer: velocity 1 written as 127"),
     # ---------------------------------------------------------------- C13
+    ("c13x", "C13", F, """                    if len(open_messages) == 1 and open_messages[0].time == rounded_point_in_time:""",
+     """                    if False and len(open_messages) == 1 and open_messages[0].time == rounded_point_in_time:""",
+     "loader: collapsed notes kept again (the state before fix 8e50f06: the next note of that key is swallowed)"),
+    ("c13y", "C13", F, """                    open_messages = open_notes.get((msg.channel, msg.note), [])""",
+     """                    open_messages = open_notes.get((0, msg.note), [])""",
+     "loader: open notes looked up under channel 0 at note-off (collapsed notes on other channels are kept)"),
+    ("c13z", "C13", F, """                    open_notes.setdefault((msg.channel, msg.note), []).append(note_on)""",
+     """                    open_notes[(msg.channel, msg.note)] = [note_on]""",
+     "loader: open-note list reset at every note-on (differs only for nested notes of one key, where the sounding set is the same union either way) — expected NOT detected"),
     ("c13a", "C13", F, "                current_point_in_time += (msg.time * scaling_factor)", "                current_point_in_time += round(msg.time * scaling_factor, 1)",
      "loader rounds every delta to one decimal: drift along long tracks"),
     ("c13b", "C13", F, """                if msg.message_type == MessageType.NOTE_ON and any(i in indices for indices in track_indices):""",
